@@ -1,4 +1,5 @@
 import CfrVerif.Proofs.GameWF
+import CfrVerif.Proofs.CompileLemmas
 /-!
 # Whatever `fromRoot` accepts is well formed
 -/
@@ -19,11 +20,217 @@ end
 
 variable [Field α] [LinearOrder α] [IsStrictOrderedRing α]
 
+/-- the state read as a game with a dummy root -/
+abbrev G (s : BState α) : Game α := s.game (.term 0)
+
+mutual
+theorem compile_inv : ∀ (r : Raw α) (prev : Prev) (s s' : BState α) (n : Node α),
+    Raw.Shape r → BInv s → PrevOK prev s → compile r prev s = .ok (n, s') →
+    BInv s' ∧ Grows s s' ∧ NodeOK (G s') n ∧
+      ∀ me, PR me (histOf (s'.infos me)) (histP (s.infos me) (prev.get me)) n
+  | .term pay, prev, s, s', n, _, hb, hp, h => by
+    simp only [compile] at h
+    split_ifs at h
+    cases h
+    exact ⟨hb, Grows.refl _, by simp [NodeOK], fun me => by simp [PR]⟩
+  | .chance info ws kids, prev, s, s', n, hs, hb, hp, h => by
+    simp only [compile] at h
+    split at h
+    · cases h
+    · rename_i probs nodes s1 hco
+      simp only [Raw.Shape] at hs
+      obtain ⟨hb1, hg1, hl, hpos, hn1, hpr1⟩ :=
+        compileOutcomes_inv ws kids prev s s1 probs nodes hs.2 hb hp hco
+      obtain ⟨hb2, hg2, hn2, hpr2⟩ := registerChance_inv h hb1 hl hpos hn1
+      refine ⟨hb2, hg1.trans hg2, hn2, fun me => hpr2 me _ _ ?_⟩
+      exact PRL_lift (G s1) me _ _
+        (fun i hi => histOf_prefix (hg2.infos me) i (by simpa using hi)) nodes _ hn1 (hpr1 me)
+  | .player one info [] kids, prev, s, s', n, hs, hb, hp, h => by
+    simp [compile] at h
+  | .player one info (a :: as) [], prev, s, s', n, hs, hb, hp, h => by
+    simp [compile] at h
+  | .player one info [a] (k :: ks), prev, s, s', n, hs, hb, hp, h => by
+    simp only [compile] at h
+    split at h
+    · cases h
+    · rename_i s1 hr
+      simp only [Raw.Shape, Raw.ShapeL] at hs
+      obtain ⟨hb1, hg1, hi1⟩ := registerSingle_inv hr hb
+      obtain ⟨hb2, hg2, hn2, hpr2⟩ := compile_inv k prev s1 s' n hs.2.1 hb1 (hp.mono hg1) h
+      refine ⟨hb2, hg1.trans hg2, hn2, fun me => ?_⟩
+      have := hpr2 me
+      rw [hi1 me] at this
+      exact this
+  | .player one info (a :: b :: as) (k :: ks), prev, s, s', n, hs, hb, hp, h => by
+    simp only [compile] at h
+    split at h
+    · cases h
+    · rename_i i s1 hr
+      split at h
+      · cases h
+      · rename_i nodes s2 hco
+        simp only [Except.ok.injEq, Prod.mk.injEq] at h
+        obtain ⟨rfl, rfl⟩ := h
+        simp only [Raw.Shape] at hs
+        obtain ⟨hb1, hg1, e, he, hea, hep⟩ := registerPlayer_inv hr (by simp) hb hp
+        obtain ⟨hb2, hg2, hn2, hl2, hpr2⟩ := compileActions_inv (k :: ks) one i 0 prev s1 s2 nodes
+          hs.2 hb1 (hp.mono hg1) ⟨e, he, hep⟩ hco
+        have hlen : e.actions.length = nodes.length := by rw [hea, hl2]; exact hs.1
+        refine ⟨hb2, hg1.trans hg2, ?_, fun me => ?_⟩
+        · simp only [NodeOK]
+          refine ⟨⟨e, ?_, hlen⟩, ?_, hn2⟩
+          · simpa using prefix_getElem? (hg2.infos one) he
+          · rw [← hlen, hea]; simp
+        · have hrest := hpr2 me
+          rw [histP_prefix (hg1.infos me) _ (hp me)] at hrest
+          simp only [PR]
+          by_cases hm : one = me
+          · subst hm
+            simp only [if_true] at hrest ⊢
+            refine ⟨?_, hrest⟩
+            rw [histOf_prefix (hg2.infos one) i (lt_of_getElem?_some he),
+              histOf_eq_histP he (hb1.prevLt one i e he), hep,
+              histP_prefix (hg1.infos one) _ (hp one)]
+          · simp only [hm, if_false] at hrest ⊢
+            exact hrest
+theorem compileOutcomes_inv : ∀ (ws : List α) (ks : List (Raw α)) (prev : Prev)
+    (s s' : BState α) (ps : List α) (ns : List (Node α)),
+    Raw.ShapeL ks → BInv s → PrevOK prev s → compileOutcomes ws ks prev s = .ok (ps, ns, s') →
+    BInv s' ∧ Grows s s' ∧ ps.length = ns.length ∧ (∀ p ∈ ps, 0 < p) ∧ NodeOKL (G s') ns ∧
+      ∀ me, PRL me (histOf (s'.infos me)) (histP (s.infos me) (prev.get me)) ns
+  | [], ks, prev, s, s', ps, ns, _, hb, hp, h => by
+    simp only [compileOutcomes] at h
+    cases h
+    exact ⟨hb, Grows.refl _, rfl, by simp, by simp [NodeOKL], fun me => by simp [PRL]⟩
+  | _ :: _, [], prev, s, s', ps, ns, _, hb, hp, h => by
+    simp only [compileOutcomes] at h
+    cases h
+    exact ⟨hb, Grows.refl _, rfl, by simp, by simp [NodeOKL], fun me => by simp [PRL]⟩
+  | w :: ws, k :: ks, prev, s, s', ps, ns, hs, hb, hp, h => by
+    simp only [compileOutcomes] at h
+    split_ifs at h with hw
+    split at h
+    · cases h
+    · rename_i n s1 hc1
+      split at h
+      · cases h
+      · rename_i ps' ns' s2 hc2
+        simp only [Except.ok.injEq, Prod.mk.injEq] at h
+        obtain ⟨rfl, rfl, rfl⟩ := h
+        simp only [Raw.ShapeL] at hs
+        obtain ⟨hb1, hg1, hn1, hpr1⟩ := compile_inv k prev s s1 n hs.1 hb hp hc1
+        obtain ⟨hb2, hg2, hl2, hpos2, hn2, hpr2⟩ :=
+          compileOutcomes_inv ws ks prev s1 s2 ps' ns' hs.2 hb1 (hp.mono hg1) hc2
+        have hw0 : 0 < w := by simpa using hw
+        refine ⟨hb2, hg1.trans hg2, by simp [hl2], ?_, ?_, fun me => ?_⟩
+        · intro p hp'
+          rcases List.mem_cons.mp hp' with rfl | hp'
+          · exact hw0
+          · exact hpos2 p hp'
+        · simp only [NodeOKL]
+          exact ⟨hg2.nodeOK hn1, hn2⟩
+        · simp only [PRL]
+          have hrest := hpr2 me
+          rw [histP_prefix (hg1.infos me) _ (hp me)] at hrest
+          exact ⟨PR_lift (G s1) me _ _
+            (fun j hj => histOf_prefix (hg2.infos me) j (by simpa using hj)) n _ hn1 (hpr1 me),
+            hrest⟩
+theorem compileActions_inv : ∀ (ks : List (Raw α)) (one : Bool) (i a : Nat) (prev : Prev)
+    (s s' : BState α) (ns : List (Node α)),
+    Raw.ShapeL ks → BInv s → PrevOK prev s →
+    (∃ e, (s.infos one)[i]? = some e ∧ e.prev = prev.get one) →
+    compileActions ks one i a prev s = .ok (ns, s') →
+    BInv s' ∧ Grows s s' ∧ NodeOKL (G s') ns ∧ ns.length = ks.length ∧
+      ∀ me, if one = me
+        then PRD me (histOf (s'.infos me)) (histP (s.infos me) (prev.get me)) i a ns
+        else PRL me (histOf (s'.infos me)) (histP (s.infos me) (prev.get me)) ns
+  | [], one, i, a, prev, s, s', ns, _, hb, hp, hi, h => by
+    simp only [compileActions] at h
+    cases h
+    refine ⟨hb, Grows.refl _, by simp [NodeOKL], rfl, fun me => ?_⟩
+    split_ifs <;> simp [PRD, PRL]
+  | k :: ks, one, i, a, prev, s, s', ns, hs, hb, hp, hi, h => by
+    simp only [compileActions] at h
+    split at h
+    · cases h
+    · rename_i n s1 hc1
+      split at h
+      · cases h
+      · rename_i ns' s2 hc2
+        simp only [Except.ok.injEq, Prod.mk.injEq] at h
+        obtain ⟨rfl, rfl⟩ := h
+        simp only [Raw.ShapeL] at hs
+        obtain ⟨e, he, hep⟩ := hi
+        have hp' : PrevOK (prev.set one (some (i, a))) s := by
+          intro me j b hj
+          simp only [Prev.get_set] at hj
+          by_cases hm : one = me
+          · subst hm
+            simp only [if_true, Option.some.injEq, Prod.mk.injEq] at hj
+            obtain ⟨rfl, rfl⟩ := hj
+            exact lt_of_getElem?_some he
+          · simp only [hm, if_false] at hj
+            exact hp me j b hj
+        obtain ⟨hb1, hg1, hn1, hpr1⟩ := compile_inv k _ s s1 n hs.1 hb hp' hc1
+        obtain ⟨hb2, hg2, hn2, hl2, hpr2⟩ := compileActions_inv ks one i (a + 1) prev s1 s2 ns'
+          hs.2 hb1 (hp.mono hg1) ⟨e, prefix_getElem? (hg1.infos one) he, hep⟩ hc2
+        refine ⟨hb2, hg1.trans hg2, ?_, by simp [hl2], fun me => ?_⟩
+        · simp only [NodeOKL]
+          exact ⟨hg2.nodeOK hn1, hn2⟩
+        · have hk : PR me (histOf (s2.infos me))
+              (histP (s.infos me) ((prev.set one (some (i, a))).get me)) n :=
+            PR_lift (G s1) me _ _
+              (fun j hj => histOf_prefix (hg2.infos me) j (by simpa using hj)) n _ hn1 (hpr1 me)
+          have hrest := hpr2 me
+          rw [histP_prefix (hg1.infos me) _ (hp me)] at hrest
+          by_cases hm : one = me
+          · subst hm
+            simp only [if_true, PRD] at hrest ⊢
+            refine ⟨?_, hrest⟩
+            simp only [Prev.get_set, if_true, histP] at hk
+            rw [histOf_eq_histP he (hb.prevLt one i e he), hep] at hk
+            exact hk
+          · simp only [hm, if_false, PRL] at hrest ⊢
+            simp only [Prev.get_set, hm, if_false] at hk
+            exact ⟨hk, hrest⟩
+end
+
 /-- **everything that is accepted is well formed**: indices in range, arities as declared,
 chance probabilities positive and summing to one, perfect recall in history form for both
 players (with earlier infosets at smaller indices), well-formed label tables -/
 theorem compile_ok_wf (r : Raw α) (hs : Raw.Shape r) (g : Game α) (h : fromRoot r = .ok g) :
     GameWF g := by
-  sorry
+  unfold fromRoot at h
+  split at h
+  · cases h
+  · rename_i root s hc
+    simp only [Except.ok.injEq] at h
+    subst h
+    have hi0 : ∀ one, ({} : BState α).infos one = [] := fun one => by cases one <;> rfl
+    have hs0 : ∀ one, ({} : BState α).singles one = [] := fun one => by cases one <;> rfl
+    have hp0 : ∀ one, ({} : Prev).get one = none := fun one => by cases one <;> rfl
+    have hb0 : BInv ({} : BState α) := by
+      refine ⟨?_, ?_, ?_, ?_⟩
+      · intro one; rw [hi0, hs0]; exact ⟨by simp, by simp, by simp, by simp⟩
+      · intro one e he; rw [hi0] at he; simp at he
+      · intro one i e he; rw [hi0] at he; simp at he
+      · intro e he; exact absurd he (by simp)
+    have hpo : PrevOK ({} : Prev) ({} : BState α) := by
+      intro one j a hj; rw [hp0] at hj; cases hj
+    obtain ⟨hb, _, hn, hpr⟩ := compile_inv r {} {} s root hs hb0 hpo hc
+    refine ⟨?_, ?_, ?_, ?_, ?_, ?_⟩
+    · intro ps hps
+      obtain ⟨e, he, rfl⟩ := List.mem_map.mp hps
+      exact hb.chance e he
+    · exact (Grows.refl s).nodeOK hn
+    · intro me
+      refine ⟨histOf (s.infos me), ?_, histOf_lt _⟩
+      have := hpr me
+      rw [hp0] at this
+      exact this
+    · exact hb.tables true
+    · exact hb.tables false
+    · intro me e he
+      exact hb.acts me e (by cases me <;> exact he)
 
 end Cfr
